@@ -476,6 +476,8 @@ class RefInst:
             rule = self.ref.rule(full, self.tag, self.epoch, j, er.get("kwargs"), dp)
             ret = None
             if rule is not None:
+                if rule.get("snapshot"):
+                    self.ref.snapshot_inst(self, rule["snapshot"]["as"])
                 if rule.get("write") is not None:
                     nid = self.rp.id_of_value.get(vkey(rule["write"]["value"]))
                     if nid is not None:
@@ -798,6 +800,20 @@ class Ref:
         self.model_state[op["as"]] = copy.deepcopy(a.state)
         self.insts[op["as"]] = b
         return {"res": None, "exc": None, "execs": [], "state": a.state}
+
+    def snapshot_inst(self, a, tag):
+        """A copy of instance ``a`` taken from inside one of its callbacks (its model, which holds the
+        machine, is copied): the copy holds the state stored at that moment and nothing is queued on it --
+        whatever the original was in the middle of is the original's business."""
+        import copy
+
+        b = RefInst(self, tag, a.rp, {"rtc": a.rtc, "allow": a.allow, "start_value": a.start_value,
+                                      "model_tag": tag}, list(a.roles), list(a.late))
+        b.engine = a.engine
+        b.queue = []
+        b.activated = True
+        self.model_state[tag] = copy.deepcopy(a.state)
+        self.insts[tag] = b
 
     def op_add_listener(self, op, epoch):
         inst = self.insts[op["inst"]]
